@@ -800,6 +800,24 @@ def gen_special_books(r: random.Random) -> Dict[str, Any]:
     return w.scenario()
 
 
+def gen_rates(r: random.Random, profile: str = "rates") -> Dict[str, Any]:
+    """many batches under a very small high-frequency rate (below one basis point): enough of them over the whole
+    batch of runs for the exact binomial test of the C09 check to tell the configured rate from zero."""
+    w = World(r)
+    w.add_market("M0", 1.0, 300.0)
+    w.add_scripted("SA", 3, False)
+    w.add_scripted("SH", 1, True)
+    steps = 400
+    w.add_session(steps, True, False, max_normal=3, max_hft=1, rate=0.00009)
+    for a in w.scripted:
+        if a["hft"]:
+            w.scripts[a["name"]] = [[] for _ in range(steps * 3 + 2)]
+        else:
+            w.scripts[a["name"]] = [[{"k": "limit", "m": 0, "side": r.choice("bs"), "px": {"mode": "abs", "v": 300.0 + r.choice([-20, 20])},
+                                      "vol": 1, "ttl": 1}] for _ in range(steps + 2)]
+    return w.scenario()
+
+
 def gen_big_index(r: random.Random) -> Dict[str, Any]:
     """an index over dozens of components (a real index has hundreds) in front of an arbitrage agent."""
     w = World(r)
